@@ -35,6 +35,8 @@ def pmap(fn, items, repo_root, workers=16, chunksize=None, job_timeout=None, on_
         fn = _Timed(fn, job_timeout, on_timeout)
     workers = min(workers, len(items))
     ctx = mp.get_context('fork')
+    global _timeouts
+    _timeouts = ctx.Value('i', 0)       # shared by the forked workers of this map
     with ctx.Pool(workers, initializer=_init, initargs=(repo_root,)) as pool:
         return pool.map(fn, items, chunksize=chunksize or max(1, len(items) // (workers * 4)))
 
@@ -59,11 +61,22 @@ class JobTimeout(BaseException):
     pass
 
 
+# Once this many jobs of one map have hit their alarm, the remaining jobs give up at once (the non-termination is already
+# established; without the cap a change that makes EVERY job hang would cost jobs x budget).
+TIMEOUT_CAP = 6
+_timeouts = None
+
+
 def with_timeout(fn, arg, seconds):
     """Run fn(arg) under a wall-clock alarm (worker processes only); raises JobTimeout."""
     import signal
+    if _timeouts is not None and _timeouts.value >= TIMEOUT_CAP:
+        raise JobTimeout('skipped: timeout cap reached')
 
     def handler(signum, frame):
+        if _timeouts is not None:
+            with _timeouts.get_lock():
+                _timeouts.value += 1
         raise JobTimeout()
     old = signal.signal(signal.SIGALRM, handler)
     signal.setitimer(signal.ITIMER_REAL, seconds, 1.0)     # re-fires every second in case it is swallowed
